@@ -31,6 +31,8 @@ type evmRef struct {
 	hash     common.Hash
 	native   bool // the node will execute this natively although the receiver has EVM code
 	contract []common.Address
+	preSum   *big.Int
+	price    *big.Int
 }
 
 func canTransfer(db vm.StateDB, addr common.Address, amount *big.Int) bool {
@@ -92,7 +94,13 @@ func (m *Monitor) OnPreDeliver(s *apphist.Sim, bz []byte) {
 		Coinbase: coinbase, BlockNumber: big.NewInt(s.Height + 1), Time: big.NewInt(s.Time), Difficulty: big.NewInt(1),
 		BaseFee: big.NewInt(0), GasLimit: 25000000}
 	e := vm.NewEVM(bctx, ethcore.NewEVMTxContext(msg), ref, evm.RIGOMainnetEVMCtrlerChainConfig, vm.Config{NoBaseFee: true})
-	r := &evmRef{db: ref, tx: tx, hash: common.BytesToHash(tmtypes.Tx(bz).Hash()), native: tx.Type == ctrlertypes.TRX_TRANSFER && !marked}
+	preSum := new(big.Int)
+	for _, a := range pre.Accts {
+		if len(fromHexS(a.Addr)) == 20 {
+			preSum.Add(preSum, a.Bal)
+		}
+	}
+	r := &evmRef{db: ref, tx: tx, preSum: preSum, price: price, hash: common.BytesToHash(tmtypes.Tx(bz).Hash()), native: tx.Type == ctrlertypes.TRX_TRANSFER && !marked}
 	ref.Prepare(r.hash, 0)
 	snap := ref.Snapshot()
 	func() {
@@ -181,6 +189,23 @@ func (m *Monitor) checkRef(s *apphist.Sim, post *State, o appdrv.TxOut, tr *appd
 	if !nodeOK {
 		m.ok("C17.ref-failed")
 		return
+	}
+	// how much value the reference run burns (self-destruct to self): Σ pre-balances - fee - Σ post-balances over the reference world
+	{
+		sumRef := new(big.Int)
+		seen := map[common.Address]bool{}
+		for _, a := range post.Accts {
+			b := fromHexS(a.Addr)
+			if len(b) == 20 && !seen[addr20(b)] {
+				seen[addr20(b)] = true
+				sumRef.Add(sumRef, r.db.GetBalance(addr20(b)))
+			}
+		}
+		fee := new(big.Int).Mul(new(big.Int).SetUint64(r.res.UsedGas), r.price)
+		m.refBurn = new(big.Int).Sub(new(big.Int).Sub(r.preSum, fee), sumRef)
+		if m.refBurn.Sign() < 0 {
+			m.refBurn = nil
+		}
 	}
 	// balances and nonces of every native account equal the reference world's
 	for _, a := range post.Accts {
